@@ -278,6 +278,83 @@ def minimise_failure(binpath, f):
 
 
 # ---------------------------------------------------------------------------
+# validation of the translator's FLOAT emission (gen/ConvFloatGen.v) -- auxiliary: C01 is about the
+# integer pairs; a disagreement here is reported as a note and in the evidence, not as a C01 violation
+
+FHEADER = "From Dasp Require Import Sample.ConvRun Sample.ConvFloatRun.\nRequire Import Uint63."
+
+
+def fbits(fw, sign, e, frac):
+    mw, bias = (23, 127) if fw == 32 else (52, 1023)
+    return (sign << (fw - 1)) | ((e + bias) << mw) | (frac & ((1 << mw) - 1))
+
+
+def float_inputs(rng, fw, n):
+    mw, ew = (23, 8) if fw == 32 else (52, 11)
+    top = (1 << mw) - 1
+    out = [0, 1 << (fw - 1), 1, top, fbits(fw, 0, 0, 0), fbits(fw, 1, 0, 0), fbits(fw, 0, -1, top), fbits(fw, 1, -1, top),
+           fbits(fw, 0, -1, 0), fbits(fw, 1, -1, 0), fbits(fw, 0, 1, 0), fbits(fw, 1, 0, 1), fbits(fw, 1, 1, 0),
+           ((1 << ew) - 1) << mw, (1 << (fw - 1)) | (((1 << ew) - 1) << mw), (((1 << ew) - 1) << mw) | (1 << (mw - 1)),
+           fbits(fw, 0, 70, 5), fbits(fw, 1, 70, 5)]
+    for k in (1, 2, 7, 8, 9, 15, 16, 17, 23, 24, 25, 31, 32, 33, 47, 48, 49, 52, 53, 62, 63, 64, 65):
+        for sg in (0, 1):
+            out += [fbits(fw, sg, -k, 0), fbits(fw, sg, -k, 1), fbits(fw, sg, -k, top)]
+    for _ in range(n):
+        e = -rng.choice([1, 1, 1, 2, 3, 5, 8, 13, 24, 40, 64, 100])
+        out.append(fbits(fw, rng.below(2), e, rng.below(1 << mw)))
+    return out
+
+
+def float_items(rng, tier):
+    n = 24 if tier == "quick" else 200
+    items = []
+    for mode in (0, 1):
+        for s in FORMATS:
+            r = rng.fork(f"f{s}{mode}")
+            vals = boundary(s) if BITS[s] > 8 else list(range(fmin(s), fmax(s) + 1, 3))
+            vals = [v for i, v in enumerate(vals) if i % (6 if tier == "quick" else 1) == 0] + randoms(r, s, n)
+            for fw in (32, 64):
+                for part in chunks(vals, 64):
+                    items.append(dict(mode=mode, line=f"i2f {CODE[s]} {fw} " + " ".join(map(str, part)),
+                                      coq=f"FI2F {mode} {CODE[s]} {fw} [" + "; ".join(zt(v) for v in part) + "]"))
+                fin = float_inputs(r, fw, n)
+                for part in chunks(fin, 64):
+                    items.append(dict(mode=mode, line=f"f2i {fw} {CODE[s]} " + " ".join(map(str, part)),
+                                      coq=f"FF2I {mode} {fw} {CODE[s]} [" + "; ".join(zt(v) for v in part) + "]"))
+        for fw in (32, 64):
+            for part in chunks(float_inputs(rng.fork(f"ff{fw}{mode}"), fw, 4 * n), 64):
+                items.append(dict(mode=mode, line=f"f2f {fw} 0 " + " ".join(map(str, part)),
+                                  coq=f"FF2F {mode} {fw} [" + "; ".join(zt(v) for v in part) + "]"))
+    return items
+
+
+def float_validation(rep, bins, rng, tier):
+    ok, log = F.coq_make("theories/Sample/ConvFloatRun.vo")
+    if not ok:
+        rep.notes.append("note: float translation (gen/ConvFloatGen.v) does not compile: " + log[-300:].replace("\n", " "))
+        return dict(compiled=False)
+    items = float_items(rng, tier)
+    obs = [None] * len(items)
+    for mode in (0, 1):
+        idx = [i for i, it in enumerate(items) if it["mode"] == mode]
+        rc, outl, err = F.run_bin_parallel(bins[mode], [items[i]["line"] for i in idx])
+        if rc != 0 or len(outl) != len(idx):
+            rep.notes.append(f"note: float translation validation: harness failed rc={rc}")
+            return dict(compiled=True, error="harness")
+        for i, o in zip(idx, outl):
+            obs[i] = o
+    terms = ["(" + it["coq"] + ", [" + "; ".join("[" + "; ".join(zt(x) for x in ob) + "]" for ob in F.norm_obs_line(o)) + "])"
+             for it, o in zip(items, obs)]
+    bad, errs = F.coq_check_cases("c01_float", FHEADER, "fcheck", terms, per_file=20)
+    nvals = sum(len(it["line"].split()) - 3 for it in items)
+    for i in bad[:3]:
+        rep.notes.append(f"note: float translation disagreement (model gen/ConvFloatGen.v vs crate), not a C01 violation: {items[i]['line'][:200]} -> {obs[i][:200]}")
+    for name, msg in errs[:2]:
+        rep.notes.append(f"note: float translation validation could not be evaluated ({name}): {msg[-200:]}")
+    return dict(compiled=True, cases=len(items), values=nvals, disagreements=len(bad), errors=len(errs))
+
+
+# ---------------------------------------------------------------------------
 # TESTING ONLY: DASP_CONV_RS simulates an edited /repo/dasp_sample/src/conv.rs for translator AND harness
 
 
@@ -329,21 +406,29 @@ def build_bins():
 
 
 def broken_theorem(log):
-    m = re.search(r'File "\./([^"]+)", line (\d+), characters[^\n]*\n((?:.*\n){0,6})', log)
-    if not m:
-        return dict(file=None, lemma=None, message=log[-1500:])
-    path, line = m.group(1), int(m.group(2))
-    lemma = None
-    try:
-        src = open(os.path.join(F.COQ, path)).read().split("\n")
-        for l in range(min(line, len(src)) - 1, -1, -1):
-            mm = re.match(r"\s*(?:Lemma|Theorem|Example|Definition)\s+([\w']+)", src[l])
-            if mm:
-                lemma = mm.group(1)
-                break
-    except OSError:
-        pass
-    return dict(file="coq/" + path, line=line, lemma=lemma, message=m.group(3).strip()[:600])
+    """every error `make` reported: file, line, enclosing lemma; generated per-pair lemmas first"""
+    found = []
+    for m in re.finditer(r'File "\./([^"]+)", line (\d+), characters[^\n]*\n((?:(?!File "|make).*\n){0,4})', log):
+        path, line = m.group(1), int(m.group(2))
+        lemma = None
+        mm = re.search(r"\(in proof ([\w']+)\)", m.group(3))
+        if mm:
+            lemma = mm.group(1)
+        else:
+            try:
+                src = open(os.path.join(F.COQ, path)).read().split("\n")
+                for l in range(min(line, len(src)) - 1, -1, -1):
+                    mm = re.match(r"\s*(?:Lemma|Theorem|Example|Definition)\s+([\w']+)", src[l])
+                    if mm:
+                        lemma = mm.group(1)
+                        break
+            except OSError:
+                pass
+        found.append(dict(file="coq/" + path, line=line, lemma=lemma, message=" ".join(m.group(3).split())[:300]))
+    if not found:
+        return dict(file=None, lemma=None, message=log[-1500:], all=[])
+    found.sort(key=lambda f: 0 if "/gen/" in f["file"] else 1)
+    return dict(found[0], all=found)
 
 
 def model_search(S, only_pairs=None):
@@ -428,7 +513,8 @@ def proof_phase(rep, S, terr, bins, rng, tier):
         bt = broken_theorem(log)
         search_failing_input(rep, S, bins, rng, tier,
                              dict(stage="proof", broken_theorem=bt.get("lemma"), file=bt.get("file"), line=bt.get("line"),
-                                  coq_message=bt.get("message"), target="coq/props/C01.vo"))
+                                  coq_message=bt.get("message"), target="coq/props/C01.vo",
+                                  all_broken=[f"{b['file']}:{b['line']} {b['lemma']}" for b in bt.get("all", [])]))
         info["broken"] = bt
         info["coq_s"] = round(time.time() - t, 1)
         return info
@@ -505,6 +591,10 @@ def main(rep, tier, seed):
                     function=fn_name(S, s, d), profile="debug" if mode == 0 else "release", input=f["input"], tag=f["tag"], got=f["got"],
                     expected=f["expected"], case=dict(s=s, d=d, mode=mode, vals=[f["input"]])))
     times["oracle_s"] = round(time.time() - t, 1)
+    t = time.time()
+    if terr is None:
+        stats["float"] = float_validation(rep, bins, rng.fork("float"), tier)
+    times["float_s"] = round(time.time() - t, 1)
     return finish(rep, info, tier, stats, times)
 
 
@@ -523,7 +613,7 @@ def collect_stats(stats, items, obs):
                     "sign:" + ("s" if SIGNED[s] else "u") + ">" + ("s" if SIGNED[d] else "u")):
             hist[key] = hist.get(key, 0) + n
         if it["kind"] != "range":
-            hist["panic_observations"] = hist.get("panic_observations", 0) + o.count("8 ")
+            hist["panic_observations"] = hist.get("panic_observations", 0) + sum(1 for x in o.split(";") if x.startswith("8 "))
         if BITS[d] < BITS[s]:
             k = BITS[s] - BITS[d]
             vals = it["vals"] if it["kind"] != "range" else range(it["lo"], it["lo"] + it["n"])
@@ -555,6 +645,7 @@ def finish(rep, info, tier, stats, times):
         "rule": "model-vs-crate: all 132 Sample::to_sample pairs x {debug, release}; every value of 8-bit sources, boundary-structured values (MIN, MIN+1, +-2^k+-1 on value and amplitude, -1, 0, 1, MAX-1, MAX, every k) plus random values of wider sources (700 per pair quick / 6000 thorough; thorough: every value of 16-bit sources by digest), out-of-range representation values of I24/U24/I48/U48; crate-vs-oracle: exhaustive <=16-bit (quick), <=24-bit and 32-bit in release (thorough), random + strided sweeps otherwise. non-trivial = distinct (pair, value) in the model-vs-crate set with a narrowing conversion of a negative amplitude that is not a multiple of the step (floor and truncation differ)",
         "samples": stats.get("samples", []), "input_distribution": stats.get("hist", {}), "disagreements": stats.get("bad", 0),
         "timing": dict(times, coq_s=info.get("coq_s")),
+        "float_translation_validation": stats.get("float", {}),
         "explanation": "theorems: what Sample::to_sample dispatches to (translated from conv.rs on this run) equals the rescaling formula for all 132 pairs and every in-range input, no overflow panic in debug, same value in release; consequences from the formula for all formats; tie: generated model run by coqc against the crate through the public trait dispatch in both profiles, plus the crate against an independent i128 oracle",
     }
     if info.get("broken"):
